@@ -263,3 +263,47 @@ Proof.
   - left. destruct (unified_raises_on_conflict_only (wft w) b e GR E) as [-> _]. reflexivity.
   - right. reflexivity.
 Qed.
+
+(* ---- documents: ProvDocument.unified() returns only when neither the document's own records nor the records
+   of any of its bundles hold a strict conflict *)
+From Prov Require Import Derive.
+
+Lemma unify_bundles_all_ok : forall ft bs nd nd', unify_bundles ft bs nd = OK nd' ->
+  forall k b, In (k, b) bs -> exists u, unified_records ft b = OK u.
+Proof.
+  intros ft bs. induction bs as [|[k0 b0] rest IH]; intros nd nd' H k b Hin; [destruct Hin|].
+  cbn [unify_bundles] in H.
+  destruct (bundle_unified ft b0) as [nb|e|] eqn:EB; try discriminate.
+  destruct (attach_bundle nd nb) as [nd1 [x|e|]] eqn:EA; try discriminate.
+  destruct Hin as [Heq|Hin].
+  - inversion Heq; subst k0 b0. unfold bundle_unified in EB.
+    destruct (unified_records ft b) as [u|e|]; try discriminate. exists u. reflexivity.
+  - exact (IH _ _ H k b Hin).
+Qed.
+
+Theorem doc_unified_returns_no_conflict : forall ft dd nd,
+  DGood ft dd -> DNormal dd -> doc_unified ft dd = OK nd ->
+  ~ group_sconflict (brecs (dmain dd)) /\ forall k b, In (k, b) (dbundles dd) -> ~ group_sconflict (brecs b).
+Proof.
+  intros ft dd nd [GM GB] [NM NB] H. unfold doc_unified in H.
+  destruct (add_namespaces nsm_init (map snd (regd (bns (dmain dd))))) as [m0|]; [|discriminate].
+  destruct (unified_records ft (dmain dd)) as [u|e|] eqn:EU; try discriminate.
+  destruct (add_records None ft _ u) as [nmain [x|e|]]; try discriminate.
+  unfold BGood in GM. rewrite Forall_forall in GM, GB, NB. unfold BNormal in NM. rewrite Forall_forall in NM.
+  split.
+  - apply (unified_returns_no_conflict ft (dmain dd) u); [intros r Hr; apply GoodR_good_rec; exact (GM r Hr) | exact NM | exact EU].
+  - intros k b Hin. destruct (unify_bundles_all_ok _ _ _ _ H k b Hin) as [ub EUb].
+    pose proof (GB (k, b) Hin) as Gb. pose proof (NB (k, b) Hin) as Nb. cbn [snd] in Gb, Nb.
+    unfold BGood in Gb. unfold BNormal in Nb. rewrite Forall_forall in Gb, Nb.
+    apply (unified_returns_no_conflict ft b ub); [intros r Hr; apply GoodR_good_rec; exact (Gb r Hr) | exact Nb | exact EUb].
+Qed.
+
+Theorem reachable_doc_unified_no_conflict : forall ft ops d dd nd,
+  let w := wrun ft ops in
+  get_doc w d = Some dd -> doc_unified (wft w) dd = OK nd ->
+  ~ group_sconflict (brecs (dmain dd)) /\ forall k b, In (k, b) (dbundles dd) -> ~ group_sconflict (brecs b).
+Proof.
+  intros ft ops d dd nd w G H.
+  destruct (reachable_WGood ft ops) as [_ WG]. fold w in WG.
+  exact (doc_unified_returns_no_conflict _ _ _ (WGood_get_doc w d dd WG G) (WNormal_get_doc w d dd (reachable_WNormal ft ops) G) H).
+Qed.
